@@ -157,6 +157,12 @@ def r_params(rng, k, nest=True):
     if k == "dict":
         if rng.random() < 0.25:
             return {"key": None, "value": None}
+        if nest and rng.random() < 0.45:
+            # a KEY field with an on-disk form of its own: binary keys (hex / base64 text in the document) or integer
+            # keys (JSON turns them into strings; region of the open finding F53: non-string key in the tree)
+            key = rng.choice([{"kind": "bytes", "p": {"enc": "hex"}}, {"kind": "bytes", "p": {"enc": "base64"}},
+                              {"kind": "bytes", "p": {"enc": rng.choice(["hex", "base64"])}}, {"kind": "int", "p": {"min": None, "max": None}}])
+            return {"key": key, "value": r_item_node(rng, False) if rng.random() < 0.85 else None}
         return {"key": rng.choice(["str", "str", None]), "value": r_item_node(rng, nest) if rng.random() < 0.85 else None}
     if k == "appmode":
         return {"helpers": rng.random() < 0.7}
@@ -241,8 +247,14 @@ def gen_val(rng, nd, prof, normal=False):
         n = rng.randint(1 if req else 0, 3)
         val = p.get("value")
         out = {}
+        kspec = p.get("key")
         for _ in range(n):
-            key = r_key(rng, prof)
+            if isinstance(kspec, dict) and kspec["kind"] == "bytes":
+                key = rng.choice([bytes(rng.randrange(256) for _ in range(rng.randint(1, 4))), b"\xca\xfe", b"\xab", b"\x00\xff", b"key", b""])
+            elif isinstance(kspec, dict) and kspec["kind"] == "int":
+                key = rng.choice([0, 1, -1, 7, 42, 2 ** 31, rng.randint(-1000, 1000)])
+            else:
+                key = r_key(rng, prof)
             out[key] = r_plain(rng, prof, 1) if val is None else gen_val(rng, val, prof, normal)
         return out
     raise ValueError(k)
@@ -408,6 +420,36 @@ def matrix_rich():
                ("set", (("key", "sub"),), "l", vals[1:4], "attr"),
                ("append", (), "items", [("set", (), "d", {"x-y": vals[0]}, "attr")])]
         cases.append(rcase(fields, ops, "matrix-container", seed=100 + len(cases)))
+    # typed dicts whose KEY field has an on-disk form of its own: binary keys written as hex / base64 text must be decoded
+    # again on load (DictField.to_python maps key_field.to_python over the keys); at the root, nested, in list items
+    # (plain and config type), with plain / binary / secret values.  Integer keys: values still round trip (JSON turns
+    # the keys into text and validation turns them back); the tree's non-string keys are the open finding F53.
+    for enc in ("hex", "base64"):
+        kb = {"kind": "bytes", "p": {"enc": enc}}
+        dk_int = L("dict", {"key": kb, "value": {"kind": "int", "p": {"min": None, "max": None}}})
+        dk_bytes = L("dict", {"key": kb, "value": {"kind": "bytes", "p": {"enc": "base64"}}})
+        dk_sec = L("dict", {"key": kb, "value": {"kind": "secure", "p": {"method": "xor"}}})
+        dk_any = L("dict", {"key": kb, "value": None})
+        for ctype in (False, True):
+            fields = [("by_id", copy.deepcopy(dk_int)), ("blobs", copy.deepcopy(dk_bytes)), ("unset", copy.deepcopy(dk_int)), ("loose", copy.deepcopy(dk_any)),
+                      ("sub", {"t": "ctype" if ctype else "sub", "dyn": False,
+                               "fields": [("by_token", copy.deepcopy(dk_sec)), ("inner", {"t": "sub", "dyn": False, "fields": [("m", copy.deepcopy(dk_int))]})]}),
+                      ("items", {"t": "cfglist", "ctype": ctype, "required": False, "fields": [("d", copy.deepcopy(dk_bytes)), ("n", L("int", {"min": None, "max": None}))]})]
+            ops = [("set", (), "by_id", {b"\xca\xfe\xba": 1, b"\xbe\xef\x00": 2, b"\xad\xbe\xef": 3}, "attr"),
+                   ("set", (), "blobs", {b"\xab\xcd\xef": b"\x00\x01", b"\xaa\xbb\xcc": b"", b"\xcc\xcc\xcc": b"xyz"}, "attr"),
+                   ("set", (), "loose", {b"\xaa\xbb\xcc": [1, "a"], b"\xcc\xcc\xcc": None}, "attr"),
+                   ("set", (("key", "sub"),), "by_token", {b"\xab\xab\xab": "s3cret!", b"\xad\xbe\xef": "p"}, "attr"),
+                   ("set", (("key", "sub"), ("key", "inner")), "m", {b"\xca\xfe\xba": -7}, "dotted" if not ctype else "attr"),
+                   ("append", (), "items", [("set", (), "d", {b"\xca\xfe\xba": b"v1"}, "attr"), ("set", (), "n", 1, "attr")]),
+                   ("append", (), "items", [("set", (), "d", {b"\xab\xcd\xef": b"", b"\xbe\xef\x00": b"\xff"}, "attr")])]
+            cases.append(rcase(fields, ops, "matrix-dictkey", seed=300 + len(cases)))
+    ki = {"kind": "int", "p": {"min": None, "max": None}}
+    fields = [("d", L("dict", {"key": ki, "value": {"kind": "str", "p": {}}})), ("unset", L("dict", {"key": ki, "value": None})),
+              ("sub", {"t": "sub", "dyn": False, "fields": [("m", L("dict", {"key": ki, "value": {"kind": "bytes", "p": {"enc": "hex"}}}))]}),
+              ("items", {"t": "cfglist", "ctype": False, "required": False, "fields": [("d", L("dict", {"key": ki, "value": {"kind": "int", "p": {}}}))]})]
+    ops = [("set", (), "d", {1: "a", 20: "b", -3: "c"}, "attr"), ("set", (("key", "sub"),), "m", {0: b"\x00", 7: b"\xca\xfe"}, "attr"),
+           ("append", (), "items", [("set", (), "d", {42: 1}, "attr")])]
+    cases.append(rcase(fields, ops, "matrix-F53", seed=300 + len(cases), region="F53"))
     # untyped containers, AnyField item, dynamic root and dynamic sub
     fields = [("l", L("list", {"item": None})), ("d", L("dict", {"key": None, "value": None})), ("la", L("list", {"item": {"kind": "any", "p": {}}})),
               ("none_l", L("list", {"item": None})), ("sub", {"t": "sub", "dyn": True, "fields": [("a", L("any"))]})]
@@ -763,7 +805,9 @@ class RBuilt:
         if k == "dict":
             if p.get("key") is None and p.get("value") is None:
                 return cc.DictField(**kw)
-            f = cc.DictField(cc.StringField() if p.get("key") == "str" else None, self.mk_item(p["value"]) if p.get("value") else None, **kw)
+            kspec = p.get("key")
+            kf_ = cc.StringField() if kspec == "str" else self.mk_item(kspec) if isinstance(kspec, dict) else None
+            f = cc.DictField(kf_, self.mk_item(p["value"]) if p.get("value") else None, **kw)
             if isinstance(f._default, dict):
                 f._default = dec(f._default, f)
             return f
@@ -902,7 +946,8 @@ def find_regions(root):
     """paths of: disabled configurations holding something invalid (F36), stale list items (F50), include fields
     holding a value (F35: the scope), configurations below the root naming their own key file (F34)"""
     from cincoconfig.core import IncludeFieldMixin
-    reg = {"F34": [], "F35": [], "F36": [], "F50": []}
+    import cincoconfig as cc
+    reg = {"F34": [], "F35": [], "F36": [], "F50": [], "F53": []}
     disabled_cfgs = []
 
     def walk(cfg, path, disabled, item):
@@ -929,6 +974,8 @@ def find_regions(root):
             v = cfg._data.get(k)
             if isinstance(f, IncludeFieldMixin) and v is not None:
                 reg["F35"].append(path)
+            if isinstance(f, cc.DictField) and f._use_proxy and isinstance(f.key_field, (cc.IntField, cc.FloatField, cc.BoolField)) and v:
+                reg["F53"].append(pjoin(path, k))
             if is_cfg(v):
                 walk(v, pjoin(path, k), disabled, item)
             elif isinstance(v, list):
@@ -960,7 +1007,7 @@ def representability(root):
     """which formats can represent the values held (the property's quantifier); plain = no non-plain datum where the
     schema imposes no type"""
     import cincoconfig as cc
-    st = {"xml": True, "bson": True, "plain": True, "nonfinite": False, "why": set()}
+    st = {"xml": True, "bson": True, "plain": True, "nonfinite": False, "why": set(), "nonstr_key": False}
 
     def generic(v, where):
         if v is None or isinstance(v, bool):
@@ -1013,7 +1060,14 @@ def representability(root):
             return
         if isinstance(f, cc.DictField) and f._use_proxy:
             for k, x in v.items():
-                generic({k: None}, where)
+                dk = k
+                if isinstance(f.key_field, cc.BytesField) and isinstance(k, bytes):
+                    dk = f.key_field.to_basic(None, k)      # the key as the document holds it: hex / base64 text
+                if type(dk) is not str:
+                    st["xml"] = False                       # an integer is not an XML name (F53 region: non-string tree key)
+                    st["nonstr_key"] = True
+                else:
+                    generic({dk: None}, where)
                 by_field(f.value_field, x, where)
             return
         generic(v, where)
@@ -1146,16 +1200,18 @@ PLAIN_TYPES = (str, int, float, bool, type(None), list, dict)
 
 
 def plain_violations(tree, path=""):
+    """list of (message, what, path)"""
     out = []
     if type(tree) not in PLAIN_TYPES:
-        return ["%s is a %s" % (path or "<tree>", type(tree).__name__)]
+        return [("%s is a %s" % (path or "<tree>", type(tree).__name__), "type", path)]
     if type(tree) is list:
         for i, x in enumerate(tree):
             out += plain_violations(x, "%s[%d]" % (path, i))
     elif type(tree) is dict:
         for k, x in tree.items():
             if type(k) is not str:
-                out.append("%s has the %s key %r" % (path or "<tree>", type(k).__name__, k))
+                out.append(("%s has the %s key %r" % (path or "<tree>", type(k).__name__, k), "nonstr-key", path))
+                out += plain_violations(x, "%s[%r]" % (path, k))
             else:
                 out += plain_violations(x, pjoin(path, k))
     return out
@@ -1385,9 +1441,13 @@ def direct_oracle(case, res, root, schema, kf, default_key):
     except Exception as e:  # noqa
         add(res, "to_tree(virtual=True) raised %s at %s" % (type(e).__name__, err_path(e)), clause="tree")
     rep = representability(root)
+    regions0, _ = find_regions(root)
     if tree is not None and rep["plain"]:
-        for m in plain_violations(tree)[:3]:
-            add(res, "to_tree() is not plain data: %s" % m, clause="plain")
+        pv = plain_violations(tree)
+        # one message per distinct kind of violation first (a non-string key must not hide a non-plain value)
+        pv.sort(key=lambda m: (m[1] == "nonstr-key" and m[2] in regions0["F53"]))
+        for m, what, pth in pv[:4]:
+            add(res, "to_tree() is not plain data: %s" % m, clause="plain", what=what, path=pth)
     if tree is not None:
         for m in virtual_violations(root, tree, vtree)[:3]:
             add(res, m, clause="virtual")
@@ -1465,9 +1525,11 @@ def under(p, region):
 def classify(case, msg):
     res = case.get("_res") or {}
     info = res.get("info", {}).get(msg)
+    reg = res.get("regions", {})
+    if info and info.get("clause") == "plain" and info.get("what") == "nonstr-key" and info.get("path") in reg.get("F53", []):
+        return "F53"        # the map of a typed dict with an int/float/bool key field is rendered with those keys
     if not info or info.get("clause") != "rt":
         return None
-    reg = res.get("regions", {})
     p, what = info.get("path"), info.get("what")
     if what == "load-raise" and p is not None:
         if any(under(p, r) for r in reg.get("F36", [])):
@@ -1518,6 +1580,9 @@ def desc_tags(fields, depth=1):
                 t.add("list-of:" + (p["item"]["kind"] if p.get("item") else "untyped"))
             if k == "dict":
                 t.add("dict-of:" + (p["value"]["kind"] if p.get("value") else "untyped"))
+                ks = p.get("key")
+                if isinstance(ks, dict):
+                    t.add("dict-key:" + ks["kind"] + ("-" + ks["p"]["enc"] if ks["kind"] == "bytes" else ""))
             if nd.get("callable"):
                 t.add("callable-default")
         else:
